@@ -2755,6 +2755,10 @@ class CodeGen : public AstVisitor {
   SymbolTable &st;
   CodeBuffer cb;
   size_t globalsOffset;
+  // Frames are referenced by the generated instructions until they are
+  // lowered, so keep every frame alive (a redeclared name replaces the frame
+  // of its symbol).
+  std::vector<std::shared_ptr<Frame>> frames;
 
 public:
   CodeGen(SymbolTable &symbolTable) :
@@ -2785,6 +2789,7 @@ public:
     auto symbol = st.lookup(std::make_pair(getCurrentScope(), proc.getName()),
                             proc.getLocation());
     auto frame = std::make_shared<Frame>(cb.getLabel());
+    frames.push_back(frame);
     symbol->setFrame(frame);
     cb.setCurrentFrame(symbol->getFrame());
     // Allocate storage locations to formals.
